@@ -195,7 +195,15 @@ def check(an, rep, tier):
                 continue
             k_ += 1
             rv_ = args_['r']
-            if rv_ is r0_ or (rv_.has_const() and rv_.c == 1):
+            ev_ = args_.get('e')
+            e0_ = a_.get('e')
+            if (e0_ is not None and rv_ is e0_) or (ev_ is not None and
+                                                     ev_ is r0_):
+                st_, det_ = 'violation', \
+                    'accuracy and rank cap are handed over in each other\'s ' \
+                    'place (the cap receives the caller\'s e, the accuracy ' \
+                    'the caller\'s r)'
+            elif rv_ is r0_ or (rv_.has_const() and rv_.c == 1):
                 st_, det_ = 'ok', ''
             elif rv_.k == 'int' and rv_.p is not None and (
                     _dd(rv_.p) or any('many.' in repr(a__)
